@@ -57,3 +57,56 @@ Ltac callhf J lem side leaf :=
       let r := fresh "r" in let b := fresh "b" in
       destruct (handle_fault now c x) as [r b]; cbn [fst snd] in K; clear Hx
   end.
+
+(* ------------------------------------------------------------------ *)
+(* Second-generation machinery: [strip] peels record updates off a state
+   expression to find the state they are applied to. *)
+Ltac strip_r t :=
+  lazymatch t with
+  | set_r_cfg _ ?y => strip_r y | set_r_nakproc _ ?y => strip_r y | set_r_status _ ?y => strip_r y
+  | set_r_state _ ?y => strip_r y | set_r_phase _ ?y => strip_r y | set_r_meta _ ?y => strip_r y
+  | set_r_segs _ ?y => strip_r y | set_r_recvd _ ?y => strip_r y | set_r_staged _ ?y => strip_r y
+  | set_r_cond _ ?y => strip_r y | set_r_dc _ ?y => strip_r y | set_r_fstat _ ?y => strip_r y
+  | set_r_resps _ ?y => strip_r y | set_r_timer _ ?y => strip_r y | set_r_cksum _ ?y => strip_r y
+  | set_r_fsize _ ?y => strip_r y | set_r_ack _ ?y => strip_r y | set_r_fin _ ?y => strip_r y
+  | set_r_prompt _ ?y => strip_r y | set_r_naks _ ?y => strip_r y | set_r_nak_recvd _ ?y => strip_r y
+  | set_r_delayed _ ?y => strip_r y | set_r_fs _ ?y => strip_r y | set_r_out _ ?y => strip_r y
+  | upd_inact _ ?y => strip_r y | upd_ack _ ?y => strip_r y | upd_nak _ ?y => strip_r y
+  | emit_ind _ ?y => strip_r y | emit_pdu _ _ _ ?y => strip_r y
+  | prepare_ack_eof ?y => strip_r y | prepare_finished _ ?y => strip_r y
+  | _ => t
+  end.
+
+(* destruct the pair returned by a call, keeping the first component as [fst call] *)
+Ltac destr_pair_keep :=
+  match goal with
+  | |- context [match ?E with (_, _) => _ end] =>
+      nomatch E;
+      let r := fresh "r" in let b := fresh "b" in let Eq := fresh "Eq" in
+      destruct E as [r b] eqn:Eq; apply (f_equal fst) in Eq; cbn [fst] in Eq; subst r
+  end.
+
+From CFDP Require Import Model.Send.
+Ltac strip_s t :=
+  lazymatch t with
+  | set_s_cfg _ ?y => strip_s y | set_s_status _ ?y => strip_s y | set_s_state _ ?y => strip_s y
+  | set_s_phase _ ?y => strip_s y | set_s_meta _ ?y => strip_s y | set_s_file _ ?y => strip_s y
+  | set_s_pos _ ?y => strip_s y | set_s_naks _ ?y => strip_s y | set_s_sent _ ?y => strip_s y
+  | set_s_recvd _ ?y => strip_s y | set_s_cond _ ?y => strip_s y | set_s_dc _ ?y => strip_s y
+  | set_s_fstat _ ?y => strip_s y | set_s_timer _ ?y => strip_s y | set_s_cksum _ ?y => strip_s y
+  | set_s_eof _ ?y => strip_s y | set_s_ack _ ?y => strip_s y | set_s_prompt _ ?y => strip_s y
+  | set_s_eof_ind _ ?y => strip_s y | set_s_out _ ?y => strip_s y
+  | supd_inact _ ?y => strip_s y | supd_ack _ ?y => strip_s y
+  | semit_ind _ ?y => strip_s y | semit_pdu _ _ _ ?y => strip_s y
+  | prepare_ack ?y => strip_s y
+  | _ => t
+  end.
+Ltac solve_ss J ext calls :=
+  lazymatch goal with
+  | |- J ?t =>
+      first [ assumption
+            | calls; solve_ss J ext calls
+            | let b := strip_s t in
+              tryif constr_eq b t then fail
+              else (eapply (ext b); [ solve_ss J ext calls | reflexivity .. ]) ]
+  end.
